@@ -47,7 +47,8 @@ func ScanBuf(br *bufio.Reader) (imageType ImageType, err error) {
 // identified.
 func ReadAt(r io.ReaderAt) (imageType ImageType, err error) {
 	buf := [searchHeaderLength]byte{}
-	if _, err = r.ReadAt(buf[:], 0); err != nil {
+	// a ReaderAt may report io.EOF together with a read that ends at the end of its source
+	if n, err := r.ReadAt(buf[:], 0); err != nil && !(err == io.EOF && n == len(buf)) {
 		return ImageUnknown, err
 	}
 
